@@ -21,7 +21,7 @@
 (* where an instance is complete.  Statements are linear or sesquilinear:  *)
 (* they are evaluated on basis vectors.                                    *)
 (***************************************************************************)
-EXTENDS Integers, Sequences, FiniteSets, TLC, Json
+EXTENDS Integers, Sequences, SequencesExt, FiniteSets, TLC, Json
 
 CONSTANTS MeshIds,     \* which meshes of the universe (indices into Meshes)
           Patterns,    \* weight patterns 0..26 used for the abstract meshes
@@ -31,7 +31,7 @@ CONSTANTS MeshIds,     \* which meshes of the universe (indices into Meshes)
 -----------------------------------------------------------------------------
 (* Gaussian rationals *)
 Abs(x) == IF x < 0 THEN -x ELSE x
-Min(a, b) == IF a < b THEN a ELSE b
+Min2(a, b) == IF a < b THEN a ELSE b
 RECURSIVE GCD(_, _)
 GCD(x, y) == IF y = 0 THEN x ELSE GCD(y, x % y)
 LCM(x, y) == (x \div GCD(x, y)) * y
@@ -50,10 +50,11 @@ QConj(x) == <<x[1], -x[2], x[3]>>
 QSub(x, y) == QAdd(x, QNeg(y))
 QIm(x) == Nrm(x[2], 0, x[3])
 IsG(x) == /\ x \in Int \X Int \X Int /\ x[3] > 0 /\ GCD(GCD(Abs(x[1]), Abs(x[2])), x[3]) = 1
-RECURSIVE QSum(_, _)
-QSum(f, n) == IF n = 0 THEN Zero ELSE QAdd(QSum(f, n - 1), f[n])     \* f on 1..n
-RECURSIVE ISum(_, _)
-ISum(f, n) == IF n = 0 THEN 0 ELSE ISum(f, n - 1) + f[n]
+\* sums: FoldLeft has a Java implementation that evaluates the summands once.  (TLC does not cache
+\* LET definitions and operator arguments while it evaluates an invariant, so every value that is used
+\* more than once below is bound by a quantifier over a singleton set: \A X \in {expr} : P(X).)
+QSum(f) == FoldLeft(QAdd, Zero, f)                      \* f: sequence of Gaussian rationals
+ISum(f) == FoldLeft(LAMBDA a, b : a + b, 0, f)          \* f: sequence of integers
 
 \* link variable U = exp(-i q pi/2) = (-i)^q; gauge phase exp(i c pi/2) = i^c
 U4(q) == CASE q % 4 = 0 -> <<1, 0, 1>> [] q % 4 = 1 -> <<0, -1, 1>>
@@ -162,7 +163,7 @@ CovLap(M, q) == [i \in Sites(M) |-> [k \in Sites(M) |->
            IF ~Touches(M, e, i) THEN Zero
            ELSE QMul(QFrac(M.dual[e], M.len[e] * M.area[i]),
                      QAdd(IF k = Other(M, e, i) THEN LinkFrom(M, q, e, i) ELSE Zero,
-                          IF k = i THEN QInt(-1) ELSE Zero))], NE(M))]]
+                          IF k = i THEN QInt(-1) ELSE Zero))])]]
 
 NoLinks(M) == [e \in 1..NE(M) |-> 0]
 Grad(M) == CovGrad(M, NoLinks(M))
@@ -178,85 +179,82 @@ Supercurrent(M, q, psi) == [e \in 1..NE(M) |->
    QIm(QMul(QConj(psi[ETail(M, e)]),
             QMul(QFrac(1, M.len[e]), QSub(QMul(U4(q[e]), psi[EHead(M, e)]), psi[ETail(M, e)]))))]
 
-MatMul(A, B, r, m, c) == [i \in 1..r |-> [k \in 1..c |-> QSum([e \in 1..m |-> QMul(A[i][e], B[e][k])], m)]]
-MatVec(A, x, r, c) == [i \in 1..r |-> QSum([k \in 1..c |-> QMul(A[i][k], x[k])], c)]
+MatMul(A, B, r, m, c) == [i \in 1..r |-> [k \in 1..c |-> QSum([e \in 1..m |-> QMul(A[i][e], B[e][k])])]]
+MatVec(A, x, r, c) == [i \in 1..r |-> QSum([k \in 1..c |-> QMul(A[i][k], x[k])])]
 IsMat(A, r, c) == /\ DOMAIN A = 1..r /\ \A i \in 1..r : DOMAIN A[i] = 1..c /\ \A k \in 1..c : IsG(A[i][k])
 Basis(n, k) == [j \in 1..n |-> IF j = k THEN One ELSE Zero]
 
 -----------------------------------------------------------------------------
 (* The identities of C03, as predicates of a mesh and of the matrices      *)
 (* (the same predicates are evaluated on the specification's own matrices  *)
-(* here and on the matrices produced by the code in FVOpsTrace).           *)
+(* here and on the matrices produced by the code in FVOpsTrace).  All      *)
+(* arguments are expected to be bound values.                              *)
 
 LapIsDivGradOn(M, L, D, G) == L = MatMul(D, G, M.n, NE(M), M.n)
 
 \* SUM_i a_i (div F)_i = 0 for every edge field F (basis fields suffice)
 WeightedDivSumsToZeroOn(M, D) ==
-  \A e \in 1..NE(M) : QSum([i \in Sites(M) |-> QMul(QInt(M.area[i]), D[i][e])], M.n) = Zero
+  \A e \in 1..NE(M) : QSum([i \in Sites(M) |-> QMul(QInt(M.area[i]), D[i][e])]) = Zero
 
 \* SUM_i a_i (B g)_i = SUM_b e_b g_b
 BoundaryFluxIntegratesOn(M, B) ==
-  \A b \in 1..NB(M) : QSum([i \in Sites(M) |-> QMul(QInt(M.area[i]), B[i][b])], M.n) = QInt(M.len[M.bidx[b]])
+  \A b \in 1..NB(M) : QSum([i \in Sites(M) |-> QMul(QInt(M.area[i]), B[i][b])]) = QInt(M.len[M.bidx[b]])
 
 AW(M, L) == [i \in Sites(M) |-> [k \in Sites(M) |-> QMul(QInt(M.area[i]), L[i][k])]]
-WeightedSymmetricOn(M, L) == LET W == AW(M, L) IN \A i, k \in Sites(M) : W[i][k] = W[k][i]
-WeightedHermitianOn(M, L) == LET W == AW(M, L) IN \A i, k \in Sites(M) : W[i][k] = QConj(W[k][i])
+WeightedSymmetricOn(M, L) == \A W \in {AW(M, L)} : \A i, k \in Sites(M) : W[i][k] = W[k][i]
+WeightedHermitianOn(M, L) == \A W \in {AW(M, L)} : \A i, k \in Sites(M) : W[i][k] = QConj(W[k][i])
 
 \* integer form of the area-weighted scalar Laplacian: scale by the common denominator of the w = s/e
-WScale(M) == LET RECURSIVE F(_) F(e) == IF e = 0 THEN 1 ELSE LCM(F(e - 1), M.len[e] \div GCD(M.dual[e], M.len[e]))
-             IN F(NE(M))
-IntegralOn(M, L) == LET W == AW(M, L) IN \A i, k \in Sites(M) : W[i][k][2] = 0 /\ WScale(M) % W[i][k][3] = 0
-IntAW(M, L) == LET W == AW(M, L) s == WScale(M) IN
-               [i \in Sites(M) |-> [k \in Sites(M) |-> W[i][k][1] * (s \div W[i][k][3])]]
+WScale(M) == FoldLeft(LCM, 1, [e \in 1..NE(M) |-> M.len[e] \div GCD(M.dual[e], M.len[e])])
+IntegralOn(M, L) == \A W \in {AW(M, L)}, s \in {WScale(M)} : \A i, k \in Sites(M) : W[i][k][2] = 0 /\ s % W[i][k][3] = 0
+IntAW(M, L, sgn) == LET mk(W, s) == [i \in Sites(M) |-> [k \in Sites(M) |-> sgn * W[i][k][1] * (s \div W[i][k][3])]]
+                    IN CHOOSE A \in {mk(W, s) : W \in {AW(M, L)}, s \in {WScale(M)}} : TRUE
 
-RECURSIVE DetOn(_, _, _)
 DropAt(s, k) == [j \in 1..(Len(s) - 1) |-> IF j < k THEN s[j] ELSE s[j + 1]]
-DetOn(A, rows, cols) ==
-  IF Len(rows) = 0 THEN 1
-  ELSE LET r == rows[1] rest == DropAt(rows, 1) IN
-       ISum([k \in 1..Len(cols) |->
-               IF A[r][cols[k]] = 0 THEN 0
-               ELSE (IF k % 2 = 1 THEN 1 ELSE -1) * A[r][cols[k]] * DetOn(A, rest, DropAt(cols, k))], Len(cols))
-RECURSIVE SortedSeq(_)
-SortedSeq(S) == IF S = {} THEN <<>> ELSE LET x == CHOOSE y \in S : \A z \in S : y <= z IN <<x>> \o SortedSeq(S \ {x})
-Minor(A, S) == LET s == SortedSeq(S) IN DetOn(A, s, s)
+\* determinant of the submatrix with the given row and column index sequences (Laplace expansion);
+\* a recursive FUNCTION, so that its argument is a value
+DetFn(A) == LET d[rc \in Seq(Int) \X Seq(Int)] ==
+                  IF Len(rc[1]) = 0 THEN 1
+                  ELSE ISum([k \in 1..Len(rc[2]) |->
+                               IF A[rc[1][1]][rc[2][k]] = 0 THEN 0
+                               ELSE (IF k % 2 = 1 THEN 1 ELSE -1) * A[rc[1][1]][rc[2][k]]
+                                      * d[<<DropAt(rc[1], 1), DropAt(rc[2], k)>>]])
+            IN d
+Minor(A, S) == CHOOSE v \in {DetFn(A)[<<s, s>>] : s \in {SetToSeq(S)}} : TRUE
 
 \* negative semi-definite: every principal minor of -(area-weighted Laplacian) is >= 0
 NegSemiDefByMinorsOn(M, L) ==
   /\ IntegralOn(M, L)
-  /\ LET A == IntAW(M, L) N == [i \in Sites(M) |-> [k \in Sites(M) |-> -A[i][k]]]
-     IN \A S \in SUBSET Sites(M) : S = {} \/ Minor(N, S) >= 0
+  /\ \A N \in {IntAW(M, L, -1)} : \A S \in SUBSET Sites(M) : S = {} \/ Minor(N, S) >= 0
 \* the quadratic form on the vectors with entries in {-1, 0, 1}
 TernaryVectors(M) == [Sites(M) -> {-1, 0, 1}]
-FormOn(A, x, n) == ISum([i \in 1..n |-> x[i] * ISum([k \in 1..n |-> A[i][k] * x[k]], n)], n)
+FormOn(A, x, n) == ISum([i \in 1..n |-> x[i] * ISum([k \in 1..n |-> A[i][k] * x[k]])])
 NegSemiDefOnVectorsOn(M, L) ==
   /\ IntegralOn(M, L)
-  /\ LET A == IntAW(M, L) IN \A x \in TernaryVectors(M) : FormOn(A, x, M.n) <= 0
+  /\ \A A \in {IntAW(M, L, 1)} : \A x \in TernaryVectors(M) : FormOn(A, x, M.n) <= 0
 
 RECURSIVE Grow(_, _)
-Grow(M, S) == LET S2 == S \cup {EHead(M, e) : e \in {f \in 1..NE(M) : ETail(M, f) \in S}}
-                           \cup {ETail(M, e) : e \in {f \in 1..NE(M) : EHead(M, f) \in S}}
-              IN IF S2 = S THEN S ELSE Grow(M, S2)
+Grow(M, S) == IF \E e \in 1..NE(M) : (ETail(M, e) \in S) # (EHead(M, e) \in S)
+              THEN Grow(M, S \cup {EHead(M, e) : e \in {f \in 1..NE(M) : ETail(M, f) \in S}}
+                             \cup {ETail(M, e) : e \in {f \in 1..NE(M) : EHead(M, f) \in S}})
+              ELSE S
 Connected(M) == Grow(M, {1}) = Sites(M)
-RECURSIVE CountComps(_, _)
-CountComps(M, todo) == IF todo = {} THEN 0
-                       ELSE LET s == CHOOSE x \in todo : TRUE IN 1 + CountComps(M, todo \ Grow(M, {s}))
-Components(M) == CountComps(M, Sites(M))
+\* number of connected components = number of sites that are the smallest of their component
+Components(M) == Cardinality({i \in Sites(M) : \A j \in Grow(M, {i}) : i <= j})
 
-AnnihilatesConstantsOn(M, L) == \A i \in Sites(M) : QSum([k \in Sites(M) |-> L[i][k]], M.n) = Zero
+AnnihilatesConstantsOn(M, L) == \A i \in Sites(M) : QSum([k \in Sites(M) |-> L[i][k]]) = Zero
 \* rank of a semi-definite matrix = size of its largest non-vanishing principal minor
-RankByMinorsOn(M, L) ==
-  LET A == IntAW(M, L) N == [i \in Sites(M) |-> [k \in Sites(M) |-> -A[i][k]]]
-      sizes == {Cardinality(S) : S \in {T \in SUBSET Sites(M) : T # {} /\ Minor(N, T) # 0}}
-  IN IF sizes = {} THEN 0 ELSE CHOOSE r \in sizes : \A s \in sizes : s <= r
-KernelDimByMinorsOn(M, L) == M.n - RankByMinorsOn(M, L)
+KernelDimByMinorsIs(M, L, d) ==
+  \A N \in {IntAW(M, L, -1)} :
+     /\ (d < M.n => \E S \in SUBSET Sites(M) : Cardinality(S) = M.n - d /\ Minor(N, S) # 0)
+     /\ \A S \in SUBSET Sites(M) : Cardinality(S) > M.n - d => Minor(N, S) = 0
 KernelIsConstantsByMinorsOn(M, L) ==
-  /\ AnnihilatesConstantsOn(M, L) /\ IntegralOn(M, L) /\ KernelDimByMinorsOn(M, L) = Components(M)
+  /\ AnnihilatesConstantsOn(M, L) /\ IntegralOn(M, L) /\ \A c \in {Components(M)} : KernelDimByMinorsIs(M, L, c)
 KernelOnVectorsOn(M, L) ==     \* L x = 0 exactly for the x that are constant on every component
   /\ IntegralOn(M, L)
-  /\ LET A == IntAW(M, L) IN
+  /\ \A A \in {IntAW(M, L, 1)} :
        \A x \in TernaryVectors(M) :
-          (\A i \in Sites(M) : ISum([k \in Sites(M) |-> A[i][k] * x[k]], M.n) = 0)
+          (\A i \in Sites(M) : ISum([k \in Sites(M) |-> A[i][k] * x[k]]) = 0)
             <=> (\A e \in 1..NE(M) : x[ETail(M, e)] = x[EHead(M, e)])
 
 \* the gradient is exact on linear functions f = alpha x + beta y + gamma:
@@ -264,15 +262,15 @@ KernelOnVectorsOn(M, L) ==     \* L x = 0 exactly for the x that are constant on
 LinearFns == { <<1, 0, 0>>, <<0, 1, 0>>, <<0, 0, 1>>, <<2, -3, 1>> }
 GradExactOnLinearOn(M, G) ==
   \A c \in LinearFns :
-    LET f == [i \in Sites(M) |-> QInt(c[1] * M.pos[i][1] + c[2] * M.pos[i][2] + c[3])]
-        gf == MatVec(G, f, NE(M), M.n)
-    IN \A e \in 1..NE(M) : QMul(QInt(M.len[e]), gf[e]) = QInt(c[1] * M.dir[e][1] + c[2] * M.dir[e][2])
+    \A f \in {[i \in Sites(M) |-> QInt(c[1] * M.pos[i][1] + c[2] * M.pos[i][2] + c[3])]} :
+      \A gf \in {MatVec(G, f, NE(M), M.n)} :
+        \A e \in 1..NE(M) : QMul(QInt(M.len[e]), gf[e]) = QInt(c[1] * M.dir[e][1] + c[2] * M.dir[e][2])
 DirIsDifferenceOfPositions(M) ==
   \A e \in 1..NE(M) : M.dir[e] = <<M.pos[EHead(M, e)][1] - M.pos[ETail(M, e)][1], M.pos[EHead(M, e)][2] - M.pos[ETail(M, e)][2]>>
 GeoConsistent(M) ==
   /\ \A e \in 1..NE(M) : M.len[e] * M.len[e] = M.dir[e][1] * M.dir[e][1] + M.dir[e][2] * M.dir[e][2]
   \* Voronoi cell area = 1/4 SUM e s over the edges of the site
-  /\ \A i \in Sites(M) : 4 * M.area[i] = ISum([e \in 1..NE(M) |-> IF Touches(M, e, i) THEN M.len[e] * M.dual[e] ELSE 0], NE(M))
+  /\ \A i \in Sites(M) : 4 * M.area[i] = ISum([e \in 1..NE(M) |-> IF Touches(M, e, i) THEN M.len[e] * M.dual[e] ELSE 0])
 
 -----------------------------------------------------------------------------
 (* C04: gauge transformations.  chi_i = c_i pi/2; psi -> psi exp(i chi);   *)
@@ -288,16 +286,17 @@ LapCovariantOn(M, L, L2, c) ==
   \A i, k \in Sites(M) : QMul(L2[i][k], Ph(c[k])) = QMul(Ph(c[i]), L[i][k])
 
 \* the supercurrent is a Hermitian form of psi: it is determined by its values on
-\* e_k, e_k + e_m, e_k + i e_m  (polarisation)
+\* e_k, e_k + e_m, e_k + i e_m, k < m  (polarisation)
 PsiUniverse(M) ==
   {Basis(M.n, k) : k \in Sites(M)}
     \cup {[j \in Sites(M) |-> IF j = km[1] THEN One ELSE IF j = km[2] THEN z ELSE Zero] :
-             km \in {p \in Sites(M) \X Sites(M) : p[1] # p[2]}, z \in {One, <<0, 1, 1>>}}
+             km \in {p \in Sites(M) \X Sites(M) : p[1] < p[2]}, z \in {One, <<0, 1, 1>>}}
 SupercurrentInvariantFor(M, q, c) ==
-  \A psi \in PsiUniverse(M) : Supercurrent(M, GaugeQ(M, q, c), GaugePsi(M, psi, c)) = Supercurrent(M, q, psi)
+  \A q2 \in {GaugeQ(M, q, c)} : \A psi \in PsiUniverse(M) : \A psi2 \in {GaugePsi(M, psi, c)} :
+      Supercurrent(M, q2, psi2) = Supercurrent(M, q, psi)
 ModulusInvariantFor(M, c) ==
-  \A psi \in PsiUniverse(M) : \A i \in Sites(M) :
-      LET z == GaugePsi(M, psi, c)[i] IN QMul(QConj(z), z) = QMul(QConj(psi[i]), psi[i])
+  \A psi \in PsiUniverse(M) : \A psi2 \in {GaugePsi(M, psi, c)} : \A i \in Sites(M) :
+      QMul(QConj(psi2[i]), psi2[i]) = QMul(QConj(psi[i]), psi[i])
 
 -----------------------------------------------------------------------------
 (* The instance universe, one choice per step *)
@@ -305,10 +304,11 @@ VARIABLES mi, pat, qs, g, stage
 vars == <<mi, pat, qs, g, stage>>
 
 Inst == Instance(mi, pat)
-NFree == Min(MaxFree, Len(Meshes[mi].edges))
+NEdges == Len(Meshes[mi].edges)
+NFree == Min2(MaxFree, NEdges)
 FixedLink(e) == (e + mi) % 4
-Q == [e \in 1..NE(Inst) |-> IF e <= Len(qs) THEN qs[e] ELSE 0]
-Chi == [i \in Sites(Inst) |-> IF i = g[1] THEN g[2] ELSE 0]
+Q == [e \in 1..NEdges |-> IF e <= Len(qs) THEN qs[e] ELSE 0]
+Chi == [i \in 1..Meshes[mi].n |-> IF i = g[1] THEN g[2] ELSE 0]
 
 Init == /\ mi \in MeshIds /\ pat = 0 /\ qs = <<>> /\ g = <<0, 0>> /\ stage = "pattern"
 
@@ -319,10 +319,10 @@ PickLink == /\ stage = "links" /\ Len(qs) < NFree
             /\ \E c \in 0..3 : qs' = Append(qs, c)
             /\ UNCHANGED <<mi, pat, g, stage>>
 FillLinks == /\ stage = "links" /\ Len(qs) = NFree
-             /\ qs' = [e \in 1..NE(Inst) |-> IF e <= NFree THEN qs[e] ELSE FixedLink(e)]
+             /\ qs' = [e \in 1..NEdges |-> IF e <= NFree THEN qs[e] ELSE FixedLink(e)]
              /\ stage' = "full" /\ UNCHANGED <<mi, pat, g>>
 PickGauge == /\ WithGauge /\ stage = "full"
-             /\ \E s \in Sites(Inst), c \in 1..3 : g' = <<s, c>>
+             /\ \E s \in 1..Meshes[mi].n, c \in 1..3 : g' = <<s, c>>
              /\ stage' = "gauge" /\ UNCHANGED <<mi, pat, qs>>
 Next == PickPattern \/ PickLink \/ FillLinks \/ PickGauge
 Spec == Init /\ [][Next]_vars
@@ -330,44 +330,53 @@ Spec == Init /\ [][Next]_vars
 AtScalar == stage = "links" /\ qs = <<>>        \* mesh and weights complete
 AtFull == stage = "full"                       \* links complete
 AtGauge == stage = "gauge"                     \* gauge generator chosen
-Small == Inst.n <= 6                           \* principal minors stay inside 32-bit integers
+Small == Meshes[mi].n <= 6                     \* principal minors stay inside 32-bit integers
 
 TypeOK == /\ mi \in 1..Len(Meshes) /\ pat \in 0..26 /\ qs \in Seq(0..3) /\ stage \in {"pattern", "links", "full", "gauge"}
-InstanceWellFormed == AtScalar => /\ WellFormed(Inst) /\ DirIsDifferenceOfPositions(Inst)
-                                  /\ (Meshes[mi].geo => GeoConsistent(Inst))
-                                  /\ IsMat(Div(Inst), Inst.n, NE(Inst)) /\ IsMat(Grad(Inst), NE(Inst), Inst.n)
-                                  /\ IsMat(Lap(Inst), Inst.n, Inst.n) /\ IsMat(NeumannB(Inst), Inst.n, NB(Inst))
+InstanceWellFormed ==
+  AtScalar => \A M \in {Inst} :
+     /\ WellFormed(M) /\ DirIsDifferenceOfPositions(M) /\ (Meshes[mi].geo => GeoConsistent(M))
+     /\ \A D \in {Div(M)} : IsMat(D, M.n, NE(M))
+     /\ \A G \in {Grad(M)} : IsMat(G, NE(M), M.n)
+     /\ \A L \in {Lap(M)} : IsMat(L, M.n, M.n)
+     /\ \A B \in {NeumannB(M)} : IsMat(B, M.n, NB(M))
 
 \* ---- C03
-LapIsDivGrad == AtScalar => LapIsDivGradOn(Inst, Lap(Inst), Div(Inst), Grad(Inst))
-WeightedDivSumsToZero == AtScalar => WeightedDivSumsToZeroOn(Inst, Div(Inst))
-BoundaryFluxIntegrates == AtScalar => BoundaryFluxIntegratesOn(Inst, NeumannB(Inst))
-WeightedLapSymmetric == AtScalar => WeightedSymmetricOn(Inst, Lap(Inst))
-WeightedLapNegSemiDef == AtScalar => /\ NegSemiDefOnVectorsOn(Inst, Lap(Inst))
-                                     /\ (Small => NegSemiDefByMinorsOn(Inst, Lap(Inst)))
-KernelIsConstants == AtScalar => /\ AnnihilatesConstantsOn(Inst, Lap(Inst))
-                                 /\ KernelOnVectorsOn(Inst, Lap(Inst))
-                                 /\ (Small => KernelIsConstantsByMinorsOn(Inst, Lap(Inst)))
-                                 /\ ((Small /\ Connected(Inst)) => KernelDimByMinorsOn(Inst, Lap(Inst)) = 1)
-GradExactOnLinear == AtScalar => GradExactOnLinearOn(Inst, Grad(Inst))
-CovLapHermitian == AtFull => WeightedHermitianOn(Inst, CovLap(Inst, Q))
+LapIsDivGrad == AtScalar => \A M \in {Inst} : \A L \in {Lap(M)}, D \in {Div(M)}, G \in {Grad(M)} : LapIsDivGradOn(M, L, D, G)
+WeightedDivSumsToZero == AtScalar => \A M \in {Inst} : \A D \in {Div(M)} : WeightedDivSumsToZeroOn(M, D)
+BoundaryFluxIntegrates == AtScalar => \A M \in {Inst} : \A B \in {NeumannB(M)} : BoundaryFluxIntegratesOn(M, B)
+WeightedLapSymmetric == AtScalar => \A M \in {Inst} : \A L \in {Lap(M)} : WeightedSymmetricOn(M, L)
+WeightedLapNegSemiDef == AtScalar => \A M \in {Inst} : \A L \in {Lap(M)} :
+                            /\ NegSemiDefOnVectorsOn(M, L)
+                            /\ (Small => NegSemiDefByMinorsOn(M, L))
+KernelIsConstants == AtScalar => \A M \in {Inst} : \A L \in {Lap(M)} :
+                            /\ AnnihilatesConstantsOn(M, L)
+                            /\ KernelOnVectorsOn(M, L)
+                            /\ (Small => KernelIsConstantsByMinorsOn(M, L))
+                            /\ ((Small /\ Connected(M)) => KernelDimByMinorsIs(M, L, 1))
+GradExactOnLinear == AtScalar => \A M \in {Inst} : \A G \in {Grad(M)} : GradExactOnLinearOn(M, G)
+CovLapHermitian == AtFull => \A M \in {Inst}, q \in {Q} : \A L \in {CovLap(M, q)} : WeightedHermitianOn(M, L)
 \* sanity of the universe: the unstated variant (kernel = constants without connectedness) must FAIL on D6
-KernelIsConstantsEvenIfDisconnected == (AtScalar /\ Small) => KernelDimByMinorsOn(Inst, Lap(Inst)) = 1
+KernelIsConstantsEvenIfDisconnected == (AtScalar /\ Small) => \A M \in {Inst} : \A L \in {Lap(M)} : KernelDimByMinorsIs(M, L, 1)
 \* sanity of the invariants: a Laplacian that uses U_ij (not its conjugate) from both ends is not Hermitian
 CovLapNoConj(M, q) == [i \in Sites(M) |-> [k \in Sites(M) |->
    QSum([e \in 1..NE(M) |-> IF ~Touches(M, e, i) THEN Zero
            ELSE QMul(QFrac(M.dual[e], M.len[e] * M.area[i]),
-                     QAdd(IF k = Other(M, e, i) THEN U4(q[e]) ELSE Zero, IF k = i THEN QInt(-1) ELSE Zero))], NE(M))]]
-NoConjIsHermitian == AtFull => WeightedHermitianOn(Inst, CovLapNoConj(Inst, Q))
+                     QAdd(IF k = Other(M, e, i) THEN U4(q[e]) ELSE Zero, IF k = i THEN QInt(-1) ELSE Zero))])]]
+NoConjIsHermitian == AtFull => \A M \in {Inst}, q \in {Q} : \A L \in {CovLapNoConj(M, q)} : WeightedHermitianOn(M, L)
 
 \* ---- C04
-GaugeCovariant == AtGauge => /\ GradCovariantOn(Inst, CovGrad(Inst, Q), CovGrad(Inst, GaugeQ(Inst, Q, Chi)), Chi)
-                             /\ LapCovariantOn(Inst, CovLap(Inst, Q), CovLap(Inst, GaugeQ(Inst, Q, Chi)), Chi)
-SupercurrentGaugeInvariant == AtGauge => /\ SupercurrentInvariantFor(Inst, Q, Chi) /\ ModulusInvariantFor(Inst, Chi)
+GaugeCovariant ==
+  AtGauge => \A M \in {Inst}, q \in {Q}, c \in {Chi} : \A q2 \in {GaugeQ(M, q, c)} :
+     /\ \A G \in {CovGrad(M, q)}, G2 \in {CovGrad(M, q2)} : GradCovariantOn(M, G, G2, c)
+     /\ \A L \in {CovLap(M, q)}, L2 \in {CovLap(M, q2)} : LapCovariantOn(M, L, L2, c)
+SupercurrentGaugeInvariant ==
+  AtGauge => \A M \in {Inst}, q \in {Q}, c \in {Chi} : SupercurrentInvariantFor(M, q, c) /\ ModulusInvariantFor(M, c)
 \* sanity: transforming psi with the opposite sign of chi is NOT a symmetry
-WrongSignIsCovariant == AtGauge =>
-   LET c2 == [i \in Sites(Inst) |-> (4 - Chi[i]) % 4] IN
-   LapCovariantOn(Inst, CovLap(Inst, Q), CovLap(Inst, GaugeQ(Inst, Q, Chi)), c2)
+WrongSignIsCovariant ==
+  AtGauge => \A M \in {Inst}, q \in {Q}, c \in {Chi} :
+     \A c2 \in {[i \in Sites(M) |-> (4 - c[i]) % 4]}, L \in {CovLap(M, q)}, L2 \in {CovLap(M, GaugeQ(M, q, c))} :
+        LapCovariantOn(M, L, L2, c2)
 
 \* ---- export of complete instances for the replay into the real code (spec -> code)
 ExportRec == [mi |-> mi, pat |-> pat, name |-> Meshes[mi].name, geo |-> Meshes[mi].geo, q |-> Q, mesh |-> Inst]
